@@ -150,3 +150,20 @@ Fixpoint recv_n (k : nat) (c : fcfg) (s : conn) : list (res reply) * conn :=
             | _ => ([r], s')
             end
   end.
+
+(* a history of the control connection: receive steps with commands sent in between. control_connection::send
+   (src/control_connection.cpp) writes the line to the socket; it reads nothing and leaves buffer_ alone, so bytes
+   already taken from the network behind an earlier reply stay where they are *)
+Inductive cop := CRecv | CSend.
+Fixpoint run_ops (ops : list cop) (c : fcfg) (s : conn) : list (res reply) * conn :=
+  match ops with
+  | [] => ([], s)
+  | CSend :: ops' => run_ops ops' c s
+  | CRecv :: ops' => let '(r, s') := recv_step c s in
+                     match r with
+                     | Ok _ => let '(rs, s'') := run_ops ops' c s' in (r :: rs, s'')
+                     | _ => ([r], s')
+                     end
+  end.
+Fixpoint count_recv (ops : list cop) : nat :=
+  match ops with [] => O | CRecv :: t => S (count_recv t) | CSend :: t => count_recv t end.
